@@ -1,7 +1,9 @@
 pub mod c01;
 pub mod c02;
+pub mod c03;
 pub mod c05;
 pub mod c06;
+pub mod c07;
 pub mod c12;
 
 use crate::engine::PropertyDef;
@@ -10,11 +12,13 @@ pub fn def(id: &str) -> Option<PropertyDef> {
     Some(match id {
         "C01" => c01::def(),
         "C02" => c02::def(),
+        "C03" => c03::def(),
         "C05" => c05::def(),
         "C06" => c06::def(),
+        "C07" => c07::def(),
         "C12" => c12::def(),
         _ => return None,
     })
 }
 
-pub const ALL: &[&str] = &["C01", "C02", "C05", "C06", "C12"];
+pub const ALL: &[&str] = &["C01", "C02", "C03", "C05", "C06", "C07", "C12"];
